@@ -118,3 +118,169 @@ def run_values(rep, ctx, anchor, rule="R1d"):
         rep.add(rule, "%s:values:%s@%s" % (anchor.key, nm, short(node[0])), ok,
                 "claimed value `%s` in %s: %s" % (nm, short(node[0]), detail), where or b.span)
     return n
+
+
+# ---------------------------------------------------------------------------------------------------------
+# R1L: a value produced per iteration must not survive only as "the last one"
+def copies_of(b, local):
+    """`local` plus locals that are plain copies / references / single-operand wrappers (Some(x)) of it."""
+    copies = {local}
+    changed = True
+    while changed:
+        changed = False
+        for blk in b.blocks:
+            for st in blk["stmts"]:
+                rv = st["rv"]
+                k = rv.get("k")
+                if st["dst"]["p"]:
+                    continue
+                srcs = []
+                if k == "use" and rv["ops"][0]["k"] in ("copy", "move"):
+                    srcs = [rv["ops"][0]["pl"]]
+                elif k == "ref":
+                    srcs = [rv["pl"]]
+                elif k == "agg" and len(rv.get("ops", [])) == 1 and rv["ops"][0]["k"] in ("copy", "move"):
+                    srcs = [rv["ops"][0]["pl"]]
+                for src in srcs:
+                    if src["l"] in copies and st["dst"]["l"] not in copies:
+                        copies.add(st["dst"]["l"])
+                        changed = True
+    return copies
+
+
+def real_use_blocks(b, copies):
+    uses = set()
+    for i, blk in enumerate(b.blocks):
+        for st in blk["stmts"]:
+            rv = st["rv"]
+            k = rv.get("k")
+            if k in ("ref", "discr", "rawptr"):
+                reads = [rv["pl"]["l"]]
+            else:
+                reads = [o["pl"]["l"] for o in rv.get("ops", []) if o["k"] in ("copy", "move")]
+            if any(r in copies for r in reads):
+                plain = not st["dst"]["p"] and st["dst"]["l"] in copies and (
+                    k in ("use", "ref") or (k == "agg" and len(rv.get("ops", [])) == 1) or k == "discr")
+                if not plain and k != "discr":
+                    uses.add(i)
+        t = blk["term"]
+        if t["k"] == "call" and any(a["k"] in ("copy", "move") and a["pl"]["l"] in copies for a in t["args"]):
+            nm = (t.get("callee") or "").rsplit("::", 1)[-1]
+            if nm not in ("drop", "deref", "as_ref", "clone", "unwrap", "expect", "branch", "from_residual", "into"):
+                uses.add(i)
+    return uses
+
+
+def last_value_only(g, bid):
+    """locals of body `bid` that receive a computed value inside a loop, are not really used before the back
+    edge on some path, but are really used after the loop: only the last iteration's value counts."""
+    f = g.facts
+    b = f.bodies[bid]
+    cyc = cyclic_blocks(b)
+    if not cyc:
+        return []
+    succ = b.succ()
+    out = []
+    defs = {}
+    for i, blk in enumerate(b.blocks):
+        if i not in cyc:
+            continue
+        for st in blk["stmts"]:
+            if st["dst"]["p"]:
+                continue
+            rv = st["rv"]
+            if rv.get("k") == "use" and rv["ops"][0]["k"] in ("copy", "move") and not rv["ops"][0]["pl"]["p"] \
+                    and st["dst"]["l"] not in ():
+                pass
+            if all(o["k"] == "const" for o in rv.get("ops", [{"k": "x"}])) and rv.get("k") in ("use", "agg"):
+                continue     # constants / flags
+            if rv.get("k") == "agg" and not rv.get("ops"):
+                continue
+            if rv.get("k") in ("ref", "discr"):
+                continue
+            defs.setdefault(st["dst"]["l"], set()).add(i)
+        t = blk["term"]
+        if t["k"] == "call" and not t["dst"]["p"]:
+            defs.setdefault(t["dst"]["l"], set()).add(i)
+    # definitions outside any loop (initialisations of loop-carried variables)
+    outside = set()
+    for i, blk in enumerate(b.blocks):
+        if i in cyc:
+            continue
+        for st in blk["stmts"]:
+            if not st["dst"]["p"]:
+                outside.add(st["dst"]["l"])
+        t = blk["term"]
+        if t["k"] == "call" and not t["dst"]["p"]:
+            outside.add(t["dst"]["l"])
+    for local, dblocks in defs.items():
+        if local not in outside:
+            continue      # bound afresh in every iteration (pattern binding, temporary): not loop-carried
+        ty = b.locals[local]["ty"]
+        if ty in ("()", "bool") or ty.startswith(("&mut", "std::ops::ControlFlow", "std::option::Option<std::result", "std::result::Result")):
+            continue
+        copies = copies_of(b, local)
+        uses = real_use_blocks(b, copies)
+        for d in dblocks:
+            scc = _scc_of(b, d)
+            uses_out = [u for u in uses if u not in scc]
+            if not uses_out:
+                continue
+            headers = [h for h in scc if all(b.dominates(h, x) for x in scc)]
+            if not headers:
+                continue
+            h = headers[0]
+            if not any(b.dominates(h, u) for u in uses_out):
+                continue
+            seen = set()
+            st = [d] if d not in uses else []
+            hit = None
+            while st and hit is None:
+                x = st.pop()
+                if x in seen:
+                    continue
+                seen.add(x)
+                for y in succ[x]:
+                    if y == h:
+                        hit = x
+                        break
+                    if y in scc and y not in uses and y not in seen:
+                        st.append(y)
+            if hit is not None:
+                # an accumulator (its new value is computed from its old one) carries every iteration forward
+                from ..flow import DATA, ALIAS
+                from .lenguard import _rev
+                par = g.reach([(bid, local)], kinds=(DATA, ALIAS))
+                reached = {st_[0] for st_ in par}
+                self_dep = any(a in reached and a != (bid, local) and e.kind == DATA
+                               for (a, e) in _rev(g).get((bid, local), ()))
+                if not self_dep:
+                    out.append((local, d, uses_out[0]))
+                break
+    return out
+
+
+def run_last_value(rep, ctx, anchor, rule="R1L"):
+    """one instance per verifier anchor: no per-iteration value survives only as the last one."""
+    g = ctx.graph(anchor)
+    f = ctx.facts
+    loops = 0
+    bad = []
+    for bid in sorted(g.scope):
+        b = f.bodies[bid]
+        if cyclic_blocks(b):
+            loops += 1
+        for local, d, u in last_value_only(g, bid):
+            nm = b.locals[local].get("name") or "_%d" % local
+            bad.append((nm, bid, local, d, u))
+    if not bad:
+        rep.add(rule, "%s:no-last-value-only" % anchor.key, True,
+                "no value computed per loop iteration is carried out of the loop unused (%d bodies with loops examined)" % loops,
+                anchor.body.span, nontrivial=loops > 0)
+    for nm, bid, local, d, u in bad:
+        b = f.bodies[bid]
+        rep.add(rule, "%s:last-value:%s@%s" % (anchor.key, nm, short(bid)), False,
+                "`%s` (%s) is computed inside the loop at %s, can reach the next iteration unused, and is used after the "
+                "loop at %s: only the value of the last iteration takes part in the decision" % (
+                    nm, b.locals[local]["ty"], where_of(f, bid, d), where_of(f, bid, u)), where_of(f, bid, d))
+    return loops
